@@ -2956,7 +2956,7 @@ template< size_t L> void FixedString< L>::swap( FixedString& other) noexcept
       // copy my data into buffer
       // then copy from other into this
       // finally copy buffer into other
-      char          buffer[ L];
+      char          buffer[ L + 1];
       const size_t  length = mLength;
       std::memcpy( buffer, mString, mLength + 1);
       std::memcpy( mString, other.mString, other.mLength + 1);
